@@ -1348,6 +1348,94 @@ def Inv (fields : List FK) (st : RecSt) : Prop :=
 
 end Rec
 
+namespace DynSpec
+
+/-- a record WITHOUT declared fields is a list that grows one field at a time (names field-0 …):
+    no list at all, or the list of its values -/
+abbrev St := Option (List Int)
+
+def rep : St → RecSt
+  | none => ⟨none, 0⟩
+  | some l => ⟨some (l.map Comp.val), l.length⟩
+
+def size (s : St) : Nat := (s.getD []).length
+
+/-- position `i` holds a value (Python list indexing, negative positions included) -/
+def has (s : St) (i : Int) : Bool := (pyIdx (size s) i).isSome
+
+def setAt (s : St) (i : Int) (a : Arg) : Option St :=
+  let l := s.getD []
+  let v : Option Int := match a with
+    | .py z => if has s i then some z else none      -- a bare value needs an existing component to cast to
+    | .obj z => some z
+    | .bad => none
+  match v with
+  | none => none
+  | some z =>
+    if 0 ≤ i ∧ i.toNat < l.length then some (some (l.set i.toNat z))
+    else if (l.length : Int) = i then some (some (l ++ [z]))
+    else none
+
+def setOut (s : St) (i : Option Int) (a : Arg) (err : Out) : St × Out :=
+  match i with
+  | none => (s, err)
+  | some i => match setAt s i a with
+    | some s' => (s', .unit)
+    | none => (s, err)
+
+def getAt (s : St) (i : Int) (inst : Bool) : Out :=
+  match pyIdx (size s) i with
+  | some k => .comp (((s.getD [])[k]?.map Comp.val).getD .hole)
+  | none => if inst then .libErr else .comp .hole
+
+def posOfName (s : St) (k : Nat) : Option Int := if k < size s then some (k : Int) else none
+
+def step (s : St) : RecOp → St × Out
+  | .setItemPos i a => setOut s (some i) a .lookupErr
+  | .setItemName k a => setOut s (posOfName s k) a .lookupErr
+  | .setPos i a => setOut s (some i) a .libErr
+  | .setName k a => setOut s (posOfName s k) a .libErr
+  | .setType _ _ => (s, .libErr)                      -- no declared types, no tags
+  | .setNone _ => (s, .libErr)                        -- (only where it fails, see `Allowed`)
+  | .clear => (some [], .unit)
+  | .reset => (none, .unit)
+  | .clone flag => if flag then (s, .unit) else (none, .unit)
+  | .len => (match s with | none => (s, .libErr) | some l => (s, .nat l.length))
+  | .keys => (s, .names (List.range (size s)))
+  | .contains k => (s, .bool (k < size s))
+  | .getItemPos i => (s, (getAt s i true).asLookup)
+  | .getItemName k => (match posOfName s k with | none => (s, .lookupErr) | some i => (s, (getAt s i true).asLookup))
+  | .getPos i inst => (s, getAt s i inst)
+  | .getName k inst => (match posOfName s k with | none => (s, .libErr) | some i => (s, getAt s i inst))
+  | .getType _ _ => (s, .libErr)
+  | .values => (s, .comps ((s.getD []).map Comp.val))
+  | .items => (s, .items (enumFrom 0 ((s.getD []).map Comp.val)))
+  | .pretty => (match s with | none => (s, .libErr) | some l => (s, .items (enumFrom 0 (l.map Comp.val))))
+  | .eqTo cs =>
+    (match s with
+     | none => (s, .libErr)
+     | some l => (s, if cs.length ≠ l.length then .bool false else Rec.eqItems cs (l.map Comp.val)))
+  | .encode _ => (s, .unit)
+
+/-- everything except `setComponentByPosition(i)` without value where it would succeed (it stores
+    the noValue sentinel itself, a state the documentation does not describe) -/
+def Allowed (s : St) : RecOp → Bool
+  | .setNone i => !(has s i)
+  | _ => true
+
+def run : St → List RecOp → St × List Out
+  | s, [] => (s, [])
+  | s, op :: ops =>
+    let r := step s op
+    let rest := run r.1 ops
+    (rest.1, r.2 :: rest.2)
+
+def AllowedRun : St → List RecOp → Prop
+  | _, [] => True
+  | s, op :: ops => Allowed s op = true ∧ AllowedRun (step s op).1 ops
+
+end DynSpec
+
 namespace OptionSpec
 
 /-- at most one (alternative, value): `sel`; the value is `none` after "select by touching".
